@@ -479,6 +479,93 @@ def type_directed_targets(col):
                               % ('one call, then ' if warm else '', ', exact=True' if exact else '', spec, got, first), None)
 
 
+def callable_classes_and_shared_reference_objects(col):
+    """"callables receive the current target" - a class is a callable (it is a spec only once instantiated), also the library's own spec
+    classes and a user's class with a glomit method; and a bare Ref(name) object means "the spec the nearest enclosing Ref(name, ..)
+    names" wherever it is used: one such object may serve under several definitions, in one spec or in successive calls"""
+    import glom as _g
+    from glom import Ref, Invoke, Val
+
+    class Lookup:
+        def __init__(self, name):
+            self.name = name
+
+        def glomit(self, target, scope):
+            return 'evaluated'
+
+        def __eq__(self, other):
+            return type(other) is Lookup and other.name == self.name
+
+        def __repr__(self):
+            return 'Lookup(%r)' % (self.name,)
+
+    class Box:
+        def __init__(self, v):
+            self.v = v
+
+        def __eq__(self, other):
+            return type(other) is Box and other.v == self.v
+
+        def __repr__(self):
+            return 'Box(%r)' % (self.v,)
+    same = lambda a, b: type(a) is type(b) and repr(a) == repr(b)
+    for cls in (Lookup, Box, _g.Val, _g.Path, _g.Spec, _g.Fill, _g.Auto, _g.Ref, str, list):
+        nm = cls.__name__
+        shapes = [
+            ('bare', 'k', cls, lambda mk: mk('k')),
+            ('list item', ['a', 'b'], [cls], lambda mk: [mk('a'), mk('b')]),
+            ('chain step', {'x': 'k'}, ('x', cls), lambda mk: mk('k')),
+            ('pipe step', {'x': 'k'}, Pipe('x', cls), lambda mk: mk('k')),
+            ('dict value', 'k', {'out': cls}, lambda mk: {'out': mk('k')}),
+            ('nested dict value after a step', {'x': 'k'}, {'out': ('x', cls), 'n': {'in': ('x', cls)}}, lambda mk: {'out': mk('k'), 'n': {'in': mk('k')}}),
+            ('coalesce alternative', 'k', Coalesce('zz', cls), lambda mk: mk('k')),
+            ('invoke argument spec', 'k', Invoke(lambda v: ('got', v)).specs(cls), lambda mk: ('got', mk('k'))),
+            ('spec wrapper', 'k', Spec(cls), lambda mk: mk('k')),
+        ]
+        for shape, target, spec, want_of in shapes:
+            want = call(want_of, cls)
+            got = call(G, target, spec)
+            col.case(('class-as-callable', nm, shape), True)
+            col.count('glom_evaluations')
+            ok = got.ok == want.ok and (not got.ok or same(got.value, want.value) or
+                                        (type(got.value) in (list, dict, tuple) and repr(got.value) == repr(want.value)))
+            if not ok:
+                col.violation('C03/class-used-as-a-callable-does-not-receive-the-target:' + shape.replace(' ', '-'),
+                              'glom(%r, %s) with the class %s as the callable: %r ; calling the class gives %r' % (target, short(repr(spec), 120), nm, got, want), None)
+
+    def linked(*nodes):
+        head = None
+        for node in reversed(nodes):
+            node = dict(node)
+            if head is not None:
+                node['next'] = head
+            head = node
+        return head
+    target = linked({'val': 1, 'name': 'a'}, {'val': 2, 'name': 'b'}, {'val': 3, 'name': 'c'})
+    for sharing in ('one reference object', 'a reference object per definition'):
+        again = Ref('node')
+        ref = (lambda: again) if sharing == 'one reference object' else (lambda: Ref('node'))
+        last = lambda field: Ref('node', Coalesce(('next', ref()), field))
+        count = lambda step: Ref('node', Coalesce(('next', ref(), lambda n: n + step), (T, lambda t: 0)))
+        progs = [
+            ('dict of two definitions', lambda: G(target, {'val': last('val'), 'name': last('name')}), {'val': 3, 'name': 'c'}),
+            ('tuple-free pair of definitions in a list', lambda: G([target, target], [{'v': last('val')}]), [{'v': 3}, {'v': 3}]),
+            ('second definition alone', lambda: G(target, last('name')), 'c'),
+            ('first definition alone, afterwards', lambda: G(target, last('val')), 3),
+            ('definition adding 1 per level', lambda: G(target, count(1)), 2),
+            ('definition adding 10 per level, afterwards', lambda: G(target, count(10)), 20),
+            ('definition nested in another definition of the same name', lambda: G(target, Ref('node', {'outer': ('next', Ref('node', Coalesce(('next', ref()), 'name'))),
+                                                                                                      'here': 'name'})), {'outer': 'c', 'here': 'a'}),
+        ]
+        for desc, prog, want in progs:
+            got = call(prog)
+            col.case(('shared-ref-object', sharing, desc), True)
+            col.count('glom_evaluations')
+            if not (got.ok and got.value == want):
+                col.violation('C03/bare-Ref-resolves-to-another-definition:' + sharing.replace(' ', '-'),
+                              '%s, %s: %r, expected %r' % (sharing, desc, got, want), None)
+
+
 def run(ctx):
     col, rng = ctx.col, ctx.rng
     col.require('glom_evaluations', 1000)
@@ -494,6 +581,7 @@ def run(ctx):
             list_spec_is_lazy_and_call_parts_go_left_to_right(col)
             coalesce_default_comes_last_and_container_subclass_constants_pass_through(col)
             type_directed_targets(col)
+            callable_classes_and_shared_reference_objects(col)
         for i in range(ctx.n(30000, 120000)):
             one_case(col, rng, tracer)
     finally:
